@@ -1,4 +1,5 @@
 import ArimModel.Frame
+import ArimProofs.Lemmas.Frame
 /-! # C15 — frame bookkeeping never mis-attributes a timetrace to an element pair -/
 namespace Arim.C15
 open Arim.Frame
@@ -17,5 +18,399 @@ theorem mem_hmc (n i j : Nat) : (i, j) ∈ hmc n ↔ i ≤ j ∧ j < n := by
 
 example : hmc 3 = [(0,0),(0,1),(0,2),(1,1),(1,2),(2,2)] := by decide
 example : inferCapture [(1,0),(0,0),(1,1)] = some Capture.hmc := by decide
+
+/-! ## 1. The enumerations have no duplicate pair -/
+
+/-- `ut.fmc n` never lists a pair twice -/
+theorem fmc_nodup (n : Nat) : (fmc n).Nodup := by
+  unfold fmc
+  rw [List.nodup_flatMap]
+  refine ⟨fun i _ => List.Nodup.map (fun a b h => by simpa using h) List.nodup_range, ?_⟩
+  refine List.Pairwise.imp_of_mem ?_ (List.nodup_range (n := n))
+  intro a b _ _ hab
+  simp only [Function.onFun, List.disjoint_left, List.mem_map, List.mem_range]
+  rintro x ⟨j, _, rfl⟩ ⟨k, _, h⟩
+  simp at h; omega
+
+/-- `ut.hmc n` never lists a pair twice -/
+theorem hmc_nodup (n : Nat) : (hmc n).Nodup := by
+  unfold hmc
+  rw [List.nodup_flatMap]
+  refine ⟨fun i _ => List.Nodup.map (fun a b h => by simpa using h) (List.nodup_range.filter _), ?_⟩
+  refine List.Pairwise.imp_of_mem ?_ (List.nodup_range (n := n))
+  intro a b _ _ hab
+  simp only [Function.onFun, List.disjoint_left, List.mem_map]
+  rintro x ⟨j, _, rfl⟩ ⟨k, _, h⟩
+  simp at h; omega
+
+/-- `ut.fmc n` has `n²` timetraces -/
+theorem fmc_length (n : Nat) : (fmc n).length = n * n := by
+  simp [fmc, List.length_flatMap]
+
+example : (fmc 3).Nodup ∧ (hmc 3).Nodup ∧ (fmc 3).length = 9 := by decide
+
+/-! ## 2. Recognition of the capture method, in any acquisition order -/
+
+theorem mem_fmc' (n : Nat) (p : Pair) : p ∈ fmc n ↔ p.1 < n ∧ p.2 < n := mem_fmc n p.1 p.2
+theorem mem_hmc' (n : Nat) (p : Pair) : p ∈ hmc n ↔ p.1 ≤ p.2 ∧ p.2 < n := mem_hmc n p.1 p.2
+
+/-- `max(tx, rx) + 1` of the enumerations is the number of elements -/
+theorem numElements_fmc (n : Nat) (hn : 1 ≤ n) : numElements (fmc n) = some n := by
+  rw [numElements_eq_some_iff]
+  refine ⟨fun p hp => (mem_fmc' n p).1 hp, (n-1, n-1), (mem_fmc' n _).2 ⟨by simp; omega, by simp; omega⟩, ?_⟩
+  simp; omega
+
+theorem numElements_hmc (n : Nat) (hn : 1 ≤ n) : numElements (hmc n) = some n := by
+  rw [numElements_eq_some_iff]
+  refine ⟨fun p hp => ?_, (n-1, n-1), (mem_hmc' n _).2 ⟨by simp, by simp; omega⟩, ?_⟩
+  · have := (mem_hmc' n p).1 hp; omega
+  · simp; omega
+
+theorem numElements_hmc_swap (n : Nat) (hn : 1 ≤ n) : numElements ((hmc n).map swap) = some n := by
+  rw [numElements_eq_some_iff]
+  refine ⟨fun p hp => ?_, (n-1, n-1), ?_, ?_⟩
+  · rw [mem_map_swap, mem_hmc'] at hp; simp only [swap] at hp; omega
+  · rw [mem_map_swap, mem_hmc']; simp [swap]; omega
+  · simp; omega
+
+/-- a full matrix capture on `n ≥ 2` elements is recognised whatever the order in which its
+    timetraces are stored (`n = 1` is reported as HMC, see the example below) -/
+theorem infer_fmc (n : Nat) (hn : 2 ≤ n) (ps : List Pair) (h : ps.Perm (fmc n)) :
+    inferCapture ps = some Capture.fmc := by
+  have hne : numElements ps = some n := by rw [numElements_perm h, numElements_fmc n (by omega)]
+  have h1 : setEq ps (hmc n) = false := by
+    rw [Bool.eq_false_iff, Ne, setEq_iff]
+    intro hh
+    have := (hh (1, 0)).1 (h.mem_iff.2 ((mem_fmc n 1 0).2 ⟨by omega, by omega⟩))
+    rw [mem_hmc] at this; omega
+  have h2 : setEq ps ((hmc n).map swap) = false := by
+    rw [Bool.eq_false_iff, Ne, setEq_iff]
+    intro hh
+    have := (hh (0, 1)).1 (h.mem_iff.2 ((mem_fmc n 0 1).2 ⟨by omega, by omega⟩))
+    rw [mem_map_swap] at this
+    have := (mem_hmc n 1 0).1 this; omega
+  have h3 : setEq ps (fmc n) = true := by
+    rw [setEq_iff]; exact fun x => h.mem_iff
+  simp [inferCapture, hne, h1, h2, h3, h.length_eq]
+
+/-- a half matrix capture (upper `tx ≤ rx`, or lower `rx ≤ tx`) on `n ≥ 1` elements is recognised
+    whatever the order in which its timetraces are stored -/
+theorem infer_hmc (n : Nat) (hn : 1 ≤ n) (ps : List Pair)
+    (h : ps.Perm (hmc n) ∨ ps.Perm ((hmc n).map swap)) :
+    inferCapture ps = some Capture.hmc := by
+  have hne : numElements ps = some n := by
+    rcases h with h | h
+    · rw [numElements_perm h, numElements_hmc n hn]
+    · rw [numElements_perm h, numElements_hmc_swap n hn]
+  have hlen : (hmc n).length = ps.length := by
+    rcases h with h | h
+    · exact h.length_eq.symm
+    · rw [h.length_eq, List.length_map]
+  have hs : (setEq ps (hmc n) || setEq ps ((hmc n).map swap)) = true := by
+    rw [Bool.or_eq_true, setEq_iff, setEq_iff]
+    rcases h with h | h
+    · exact Or.inl fun x => h.mem_iff
+    · exact Or.inr fun x => h.mem_iff
+  rw [Bool.or_eq_true] at hs
+  simp only [inferCapture, hne, Option.map_some, hlen, beq_self_eq_true, Bool.true_and]
+  rcases hs with hs | hs <;> simp [hs]
+
+/-- soundness of the recognition of a full matrix capture: the frame is a rearrangement of
+    `fmc n` for `n = numElements ps`, and `n ≥ 2` (a single-element frame is reported as HMC) -/
+theorem infer_fmc_sound (ps : List Pair) (h : inferCapture ps = some Capture.fmc) :
+    ∃ n, 2 ≤ n ∧ numElements ps = some n ∧ ps.length = n * n ∧ (∀ p, p ∈ ps ↔ p ∈ fmc n) ∧
+      ps.Perm (fmc n) := by
+  rw [inferCapture_eq_some_iff] at h
+  obtain ⟨n, hn, hc⟩ := h
+  split at hc
+  · cases hc
+  · rename_i hh
+    split at hc
+    · rename_i hf
+      simp only [Bool.and_eq_true, beq_iff_eq] at hf
+      have hperm := perm_of_setEq_of_length (fmc_nodup n) hf.2 hf.1
+      refine ⟨n, ?_, hn, by rw [← hf.1, fmc_length], (setEq_iff _ _).1 hf.2, hperm⟩
+      by_contra hlt
+      have hn1 : n = 1 := by
+        have : n ≠ 0 := by
+          rintro rfl
+          rw [numElements_eq_some_iff] at hn
+          obtain ⟨_, p, _, hp⟩ := hn; omega
+        omega
+      subst hn1
+      apply hh
+      have : hmc 1 = fmc 1 := by decide
+      rw [this]
+      simp [hf.1, hf.2]
+    · cases hc
+
+/-- soundness of the recognition of a half matrix capture -/
+theorem infer_hmc_sound (ps : List Pair) (h : inferCapture ps = some Capture.hmc) :
+    ∃ n, 1 ≤ n ∧ numElements ps = some n ∧
+      (ps.Perm (hmc n) ∨ ps.Perm ((hmc n).map swap)) := by
+  rw [inferCapture_eq_some_iff] at h
+  obtain ⟨n, hn, hc⟩ := h
+  split at hc
+  · rename_i hh
+    simp only [Bool.and_eq_true, beq_iff_eq, Bool.or_eq_true] at hh
+    refine ⟨n, numElements_pos hn, hn, ?_⟩
+    rcases hh.2 with hs | hs
+    · exact Or.inl (perm_of_setEq_of_length (hmc_nodup n) hs hh.1)
+    · exact Or.inr (perm_of_setEq_of_length ((hmc_nodup n).map swap_injective) hs
+        (by rw [List.length_map]; exact hh.1))
+  · split at hc <;> cases hc
+
+/-- a frame is reported FMC exactly when it is a rearrangement of `fmc n` for some `n ≥ 2` -/
+theorem infer_fmc_iff (ps : List Pair) :
+    inferCapture ps = some Capture.fmc ↔ ∃ n, 2 ≤ n ∧ ps.Perm (fmc n) :=
+  ⟨fun h => by obtain ⟨n, h1, _, _, _, h2⟩ := infer_fmc_sound ps h; exact ⟨n, h1, h2⟩,
+   fun ⟨n, h1, h2⟩ => infer_fmc n h1 ps h2⟩
+
+/-- a frame is reported HMC exactly when it is a rearrangement of `hmc n` (or of its mirror image)
+    for some `n ≥ 1` -/
+theorem infer_hmc_iff (ps : List Pair) :
+    inferCapture ps = some Capture.hmc ↔
+      ∃ n, 1 ≤ n ∧ (ps.Perm (hmc n) ∨ ps.Perm ((hmc n).map swap)) :=
+  ⟨fun h => by obtain ⟨n, h1, _, h2⟩ := infer_hmc_sound ps h; exact ⟨n, h1, h2⟩,
+   fun ⟨n, h1, h2⟩ => infer_hmc n h1 ps h2⟩
+
+example : inferCapture [(1,1),(0,1),(1,0),(0,0)] = some Capture.fmc := by decide
+example : inferCapture [(1,1),(0,1),(0,0)] = some Capture.hmc := by decide
+example : inferCapture [(1,1),(1,0),(0,0)] = some Capture.hmc := by decide
+/-- a one-element frame is both FMC and HMC; the code answers HMC -/
+example : inferCapture (fmc 1) = some Capture.hmc := by decide
+/-- a repeated pair is not mistaken for a missing one -/
+example : inferCapture [(1,1),(0,1),(0,1),(0,0)] = some Capture.unsupported := by decide
+
+/-! ## 3. Default timetrace weights -/
+
+theorem weights_length (ps : List Pair) : (defaultWeights ps).length = ps.length := by
+  simp [defaultWeights]
+
+/-- the weight of the `k`-th timetrace is 1 when its mirror pair is recorded in the frame
+    (this includes `tx = rx`), else 2 -/
+theorem weights_rule (ps : List Pair) (k : Nat) (hk : k < ps.length) :
+    (defaultWeights ps)[k]? = some (if swap ps[k] ∈ ps then 1 else 2) := by
+  simp [defaultWeights, List.getElem?_eq_getElem hk]
+
+example : defaultWeights [(0,0),(0,1),(1,0),(0,2)] = [1,1,1,2] := by decide
+/-- HMC: diagonal pairs weigh 1, off-diagonal pairs 2 -/
+example : defaultWeights (hmc 2) = [1,2,1] := by decide
+
+/-! ## 4. Expansion by reciprocity
+
+`expand_pairs_mem`, `expand_complete` and `expand_idempotent` hold for every list of timetraces;
+the hypothesis `(pairsOf f).Nodup` (enforced by `Frame.__init__`) is only needed where stated
+(`expand_payload` is false without it: `[⟨0,0,a⟩, ⟨0,0,b⟩]` is complete, hence returned as is, and
+`lookup` finds `a` for the second timetrace). -/
+variable {P : Type}
+
+/-- the expanded frame lists exactly the recorded pairs and their mirrors -/
+theorem expand_pairs_mem (f : List (TT P)) (p : Pair) :
+    p ∈ pairsOf (expand f) ↔ (p ∈ pairsOf f ∨ swap p ∈ pairsOf f) := by
+  cases hc : isComplete f
+  · rw [pairsOf_expand_of_not_complete f hc, mem_expPairs]
+  · rw [expand_eq, hc]
+    have := (isComplete_iff f).1 hc p
+    simp only [if_true]; tauto
+
+/-- the expanded frame has no duplicate pair (so it is accepted by `Frame.__init__`) -/
+theorem expand_pairs_nodup (f : List (TT P)) (hnd : (pairsOf f).Nodup) :
+    (pairsOf (expand f)).Nodup := by
+  cases hc : isComplete f
+  · rw [pairsOf_expand_of_not_complete f hc]; exact sortDedup_nodup _
+  · rw [expand_eq, hc]; exact hnd
+
+/-- each timetrace of the expanded frame carries the data recorded for its own pair if that pair
+    was recorded, and otherwise the data recorded for the mirror pair: no payload is ever
+    attached to an unrelated pair -/
+theorem expand_payload (f : List (TT P)) (hnd : (pairsOf f).Nodup) (t : TT P) (ht : t ∈ expand f) :
+    lookup f (t.tx, t.rx) = some t.data ∨
+      (lookup f (t.tx, t.rx) = none ∧ lookup f (t.rx, t.tx) = some t.data) := by
+  cases hc : isComplete f
+  · rw [expand_eq, hc] at ht
+    simp only [Bool.false_eq_true, if_false, List.mem_filterMap] at ht
+    obtain ⟨p, _, hp⟩ := ht
+    obtain ⟨h1, h2, h3⟩ := expandEntry_some f p t hp
+    obtain ⟨a, b⟩ := p
+    simp only at h1 h2
+    subst h1 h2
+    exact h3
+  · rw [expand_eq, hc] at ht
+    exact Or.inl (lookup_of_mem f hnd t ht)
+
+/-- the expanded frame is complete (closed under `tx ↔ rx`) -/
+theorem expand_complete (f : List (TT P)) : isComplete (expand f) = true := by
+  rw [isComplete_iff]
+  intro p
+  rw [expand_pairs_mem, expand_pairs_mem, swap_swap]; tauto
+
+/-- expanding twice is expanding once -/
+theorem expand_idempotent (f : List (TT P)) : expand (expand f) = expand f := by
+  rw [expand_eq (expand f), expand_complete]; rfl
+
+/-- no recorded timetrace is lost or altered by the expansion -/
+theorem expand_keeps (f : List (TT P)) (hnd : (pairsOf f).Nodup) (t : TT P) (ht : t ∈ f) :
+    t ∈ expand f := by
+  cases hc : isComplete f
+  · rw [expand_eq, hc]
+    simp only [Bool.false_eq_true, if_false, List.mem_filterMap]
+    refine ⟨(t.tx, t.rx), ?_, ?_⟩
+    · rw [mem_expPairs]; exact Or.inl ((mem_pairsOf f _).2 ⟨t, ht, rfl, rfl⟩)
+    · simp [expandEntry, lookup_of_mem f hnd t ht]
+  · rw [expand_eq, hc]; exact ht
+
+/-- unless the frame was already complete (then it is returned untouched), the expanded frame
+    is sorted by `(tx, rx)` in lexicographic order -/
+theorem expand_pairs_sorted (f : List (TT P)) (hc : isComplete f = false) :
+    (pairsOf (expand f)).Pairwise (fun a b => pairLt a b = true) := by
+  rw [pairsOf_expand_of_not_complete f hc]; exact sortDedup_sorted _
+
+/-- a small half-matrix-like frame with distinguishable payloads -/
+def exFrame : List (TT Nat) := [⟨1, 0, 10⟩, ⟨0, 0, 20⟩, ⟨1, 1, 30⟩]
+
+example : (pairsOf exFrame).Nodup := by decide
+example : isComplete exFrame = false := by decide
+example : (expand exFrame).map (fun t => (t.tx, t.rx, t.data))
+    = [(0,0,20), (0,1,10), (1,0,10), (1,1,30)] := by decide
+example : isComplete (expand exFrame) = true := by decide
+example : (expand (expand exFrame)).map (fun t => (t.tx, t.rx, t.data))
+    = (expand exFrame).map (fun t => (t.tx, t.rx, t.data)) := by decide
+/-- an already complete frame is returned as is, unsorted -/
+example : (expand [⟨1, 0, 10⟩, ⟨0, 1, 5⟩] : List (TT Nat)).map (fun t => (t.tx, t.rx, t.data))
+    = [(1,0,10), (0,1,5)] := by decide
+
+/-! ## 5. Sub-frame by probe elements -/
+
+/-- key renumbering fact: when no position is selected twice, the `k`-th selected element gets
+    the new index `k` -/
+theorem mapper_nodup (n : Nat) (pos : List Nat) (hnd : pos.Nodup) (k : Nat) (hk : k < pos.length) :
+    mapper n pos pos[k] = k := mapper_getElem n pos hnd k hk
+
+/-- for every old element index retained, the new probe holds the same physical element at the
+    renumbered index -/
+theorem subprobe_mapper (probe : List Nat) (pos sp : List Nat) (h : take? probe pos = some sp)
+    (old : Nat) (ho : old ∈ pos) : sp[mapper probe.length pos old]? = probe[old]? := by
+  obtain ⟨hk, hv⟩ := mapper_spec probe.length pos old ho
+  obtain ⟨_, h2⟩ := take?_getElem probe pos sp h
+  rw [h2 _ hk, hv]
+
+/-- **Sub-frame by probe elements.** Exactly the timetraces whose both elements are retained are
+    kept, in their original order, with the same payload, and — read through the probe returned
+    with the frame — attached to the same physical elements as before. Holds for both values of
+    `make_subprobe` and for every kind of index; neither `pos.Nodup` nor a range hypothesis on the
+    frame is needed (when an element is selected twice, `mapper` points to its last copy, which
+    holds the same physical element). See `subframe_elements_keep_probe` and
+    `subframe_elements_subprobe` for the returned probe. -/
+theorem subframe_elements (f : List (TT P)) (probe : List Nat) (ix : Idx) (mk : Bool)
+    (pos : List Nat) (hpos : ix.positions probe.length = some pos)
+    (f' : List (TT P)) (probe' : List Nat)
+    (h : subframeFromElements f probe ix mk = some (f', probe')) :
+    f'.map (fun t => (probe'[t.tx]?, probe'[t.rx]?, t.data))
+      = (f.filter (fun t => pos.contains t.tx && pos.contains t.rx)).map
+          (fun t => (probe[t.tx]?, probe[t.rx]?, t.data)) := by
+  simp only [subframeFromElements, hpos, Option.bind_some] at h
+  cases mk with
+  | false =>
+    simp only [Bool.false_eq_true, if_false, Option.some.injEq, Prod.mk.injEq] at h
+    obtain ⟨rfl, rfl⟩ := h; rfl
+  | true =>
+    simp only [if_true, Option.bind_eq_some_iff, Option.map_eq_some_iff, Prod.mk.injEq] at h
+    obtain ⟨sp, hsp, g, hg, rfl, rfl⟩ := h
+    simp only [mkFrame] at hg
+    split at hg
+    · cases hg
+      rw [List.map_map]
+      apply List.map_congr_left
+      intro t ht
+      simp only [List.mem_filter, Bool.and_eq_true, List.contains_iff_mem] at ht
+      simp only [Function.comp]
+      rw [subprobe_mapper probe pos sp hsp t.tx ht.2.1, subprobe_mapper probe pos sp hsp t.rx ht.2.2]
+    · cases hg
+
+/-- without `make_subprobe` the probe is untouched and the frame is the plain filter -/
+theorem subframe_elements_keep_probe (f : List (TT P)) (probe : List Nat) (ix : Idx)
+    (pos : List Nat) (hpos : ix.positions probe.length = some pos) :
+    subframeFromElements f probe ix false
+      = some (f.filter (fun t => pos.contains t.tx && pos.contains t.rx), probe) := by
+  simp [subframeFromElements, hpos]
+
+/-- with `make_subprobe` the new probe is the selection `pos` of the old one (`take?`), it has
+    one element per selected position, element indices of the new frame are in range, and the
+    new frame has no duplicate pair -/
+theorem subframe_elements_subprobe (f : List (TT P)) (probe : List Nat) (ix : Idx)
+    (pos : List Nat) (hpos : ix.positions probe.length = some pos)
+    (f' : List (TT P)) (probe' : List Nat)
+    (h : subframeFromElements f probe ix true = some (f', probe')) :
+    take? probe pos = some probe' ∧ probe'.length = pos.length ∧
+      (∀ k (hk : k < pos.length), probe'[k]? = probe[pos[k]]?) ∧
+      (∀ t ∈ f', t.tx < probe'.length ∧ t.rx < probe'.length) ∧ (pairsOf f').Nodup := by
+  simp only [subframeFromElements, hpos, Option.bind_some, if_true, Option.bind_eq_some_iff,
+    Option.map_eq_some_iff, Prod.mk.injEq] at h
+  obtain ⟨sp, hsp, g, hg, rfl, rfl⟩ := h
+  rw [mkFrame_eq_some_iff] at hg
+  obtain ⟨hnd, rfl⟩ := hg
+  obtain ⟨h1, h2⟩ := take?_getElem probe pos sp hsp
+  refine ⟨hsp, h1, h2, ?_, hnd⟩
+  intro t ht
+  simp only [List.mem_map, List.mem_filter, Bool.and_eq_true, List.contains_iff_mem] at ht
+  obtain ⟨u, ⟨_, hu1, hu2⟩, rfl⟩ := ht
+  obtain ⟨k1, _⟩ := mapper_spec probe.length pos u.tx hu1
+  obtain ⟨k2, _⟩ := mapper_spec probe.length pos u.rx hu2
+  simp only; omega
+
+/-- the operation never fails on a valid frame: if the frame has no duplicate pair and the
+    index is accepted by NumPy (`positions` is `some`), a result is returned, whatever the kind of
+    index (slice, mask, integer array, possibly with repeated entries) -/
+theorem subframe_elements_succeeds (f : List (TT P)) (hnd : (pairsOf f).Nodup) (probe : List Nat)
+    (ix : Idx) (mk : Bool) (pos : List Nat) (hpos : ix.positions probe.length = some pos) :
+    ∃ r, subframeFromElements f probe ix mk = some r := by
+  cases mk with
+  | false => exact ⟨_, subframe_elements_keep_probe f probe ix pos hpos⟩
+  | true =>
+    obtain ⟨sp, hsp⟩ := take?_isSome probe pos (positions_bound ix probe.length pos hpos)
+    have hk : (pairsOf (f.filter (fun t => pos.contains t.tx && pos.contains t.rx))).Nodup :=
+      hnd.sublist (List.Sublist.map _ List.filter_sublist)
+    have hm : mkFrame ((f.filter (fun t => pos.contains t.tx && pos.contains t.rx)).map
+        (fun t => { t with tx := mapper probe.length pos t.tx, rx := mapper probe.length pos t.rx }))
+        = some ((f.filter (fun t => pos.contains t.tx && pos.contains t.rx)).map
+        (fun t => { t with tx := mapper probe.length pos t.tx, rx := mapper probe.length pos t.rx })) := by
+      refine (mkFrame_eq_some_iff _ _).2 ⟨?_, rfl⟩
+      simp only [pairsOf, List.map_map] at hk ⊢
+      have hinj := (List.nodup_map_iff_inj_on (List.Nodup.of_map _ hk)).1 hk
+      rw [List.nodup_map_iff_inj_on (List.Nodup.of_map _ hk)]
+      intro t ht u hu htu
+      apply hinj t ht u hu
+      simp only [List.mem_filter, Bool.and_eq_true, List.contains_iff_mem] at ht hu
+      simp only [Function.comp, Prod.mk.injEq] at htu
+      have e1 := mapper_inj_on _ pos _ _ ht.2.1 hu.2.1 htu.1
+      have e2 := mapper_inj_on _ pos _ _ ht.2.2 hu.2.2 htu.2
+      simp [e1, e2]
+    exact ⟨_, by simp only [subframeFromElements, hpos, Option.bind_some, if_true, hsp, hm]; rfl⟩
+
+/-- a 3-element half-matrix frame with distinguishable payloads, on a probe whose elements are
+    tagged 100, 101, 102 -/
+def exHmc : List (TT Nat) := [⟨0,0,1⟩, ⟨0,1,2⟩, ⟨0,2,3⟩, ⟨1,1,4⟩, ⟨1,2,5⟩, ⟨2,2,6⟩]
+def exProbe : List Nat := [100, 101, 102]
+/-- printable view of a result -/
+def view (r : Option (List (TT Nat) × List Nat)) : Option (List (Nat × Nat × Nat) × List Nat) :=
+  r.map (fun r => (r.1.map (fun t => (t.tx, t.rx, t.data)), r.2))
+
+example : (Idx.ints [2, 0]).positions exProbe.length = some [2, 0] := by decide
+example : view (subframeFromElements exHmc exProbe (.ints [2, 0]) true)
+    = some ([(1,1,1), (1,0,3), (0,0,6)], [102, 100]) := by decide
+example : view (subframeFromElements exHmc exProbe (.ints [2, 0]) false)
+    = some ([(0,0,1), (0,2,3), (2,2,6)], [100, 101, 102]) := by decide
+example : view (subframeFromElements exHmc exProbe (.slice (some 1) none 1) true)
+    = some ([(0,0,4), (0,1,5), (1,1,6)], [101, 102]) := by decide
+example : view (subframeFromElements exHmc exProbe (.mask [true, false, true]) true)
+    = some ([(0,0,1), (0,1,3), (1,1,6)], [100, 102]) := by decide
+example : view (subframeFromElements exHmc exProbe (.slice none none (-1)) true)
+    = some ([(2,2,1), (2,1,2), (2,0,3), (1,1,4), (1,0,5), (0,0,6)], [102, 101, 100]) := by decide
+/-- a repeated index: the element is duplicated in the new probe, timetraces refer to the last copy -/
+example : view (subframeFromElements exHmc exProbe (.ints [0, 0]) true)
+    = some ([(1,1,1)], [100, 100]) := by decide
+example : view (subframeFromElements exHmc exProbe (.ints [3]) true) = none := by decide
+example : mapper 3 [2, 0] 2 = 0 ∧ mapper 3 [2, 0] 0 = 1 := by decide
 
 end Arim.C15
